@@ -11,6 +11,8 @@ VIEW = ["bip", FLAGS, do_import, import_mol_attr]          FLAGS = dict sp rp bv
        ["line", text, rule|None, parse_rule_from_suffix]    CRNHyperGraph().add_rxn_from_str
        ["parse", [text, ...], default_rule, parse_rule_from_suffix, prefer_suffix]   rxns_to_hypergraph
 
+case = {"kind": "undirected", "views": [], "ugraphs": [[{"multi": bool, "nodes": [[id, attrs], ...], "edges": [[u, v, attrs], ...]}, import_mol_attr, IMPORT_OPTS], ...]}
+       conversion._as_bipartite on an undirected networkx Graph / MultiGraph built from the lists in the order given (round 5)
 case = {"kind": "parse-into", "net": NET, "views": [], "batches": [[form, [[line, rule|None], ...], default_rule, parse_suffix, prefer_suffix], ...]}
        parse_rxns on a network that already holds reactions, batch after batch on the same object (round 5)
 case = {"kind": "sg-edit", "net": NET, "views": [], "sviews": [[include_mol, SDROPS, import_mol_attr, default_rule], ...]}   (round 5)
@@ -30,7 +32,7 @@ from ..tok import S
 
 PID = "C16"
 COQ_HEADER = ("From stdpp Require Import gmap strings.\n"
-              "From SK Require Import lib.Tok model.C15_Model model.C16_Model model.C16_Edit.\n"
+              "From SK Require Import lib.Tok model.C15_Model model.C16_Model model.C16_Edit model.C16_Undirected.\n"
               "Local Open Scope string_scope.\n")
 SHARD = 120                    # re-computed by gen_cases: see _set_shard
 IMPL_TIMEOUT = 1500
@@ -55,7 +57,7 @@ EXPLANATION = ("Exhaustive sub-spaces: every set of <=2 reactions out of the 90 
 TRUSTED_BASE = [
     "Coq 8.16.1 kernel + vm_compute (no native_compute)",
     "std++ 1.8.0 gmap/gset/pretty (axiom-free)",
-    "hand-written model coq/model/C16_Model.v + coq/model/C16_Edit.v (+ the store model C15_Model.v they build on) tied to "
+    "hand-written model coq/model/C16_Model.v + coq/model/C16_Edit.v + coq/model/C16_Undirected.v (+ the store model C15_Model.v they build on) tied to "
     "synkit/CRN/Hypergraph/{conversion,rxn,hypergraph}.py by the per-run correspondence",
     "harness encoders harness/props/C16.py (network / flags -> Gallina literal; nx graphs, strings, networks -> tok)",
     "networkx DiGraph add_node/add_edge attribute-merge semantics, in_edges/out_edges; CPython str.strip/split/replace, "
@@ -560,6 +562,53 @@ def _run_sview(H, sv, ret):
     out.append(_guard(go))
     return out
 
+def _ugraph(ug):
+    """the undirected networkx graph of a case: nodes and edges inserted in the order given (Graph or MultiGraph)"""
+    import networkx as nx
+    U = nx.MultiGraph() if ug["multi"] else nx.Graph()
+    for n, attrs in ug["nodes"]:
+        U.add_node(n, **attrs)
+    for u, v, attrs in ug["edges"]:
+        U.add_edge(u, v, **attrs)
+    return U
+
+
+def _run_uview(ug, mol_attr, io):
+    from synkit.CRN.Hypergraph import conversion as cv
+    U = _ugraph(ug)
+    D = cv._as_bipartite(U)
+    out = [_bip_obs(D)]
+    try:
+        H2, synth = _import_edited(D, mol_attr, io)
+        out.append([9] if synth else [0, _net_obs(H2)])
+    except KeyError:
+        out.append([1])
+    except ValueError:
+        out.append([2])
+    return out
+
+
+def _cnid(n):
+    return "(inl %d%%N)" % n if isinstance(n, int) else "(inr %s)" % cs(n)
+
+
+def _uview_term(ug, mol_attr, io):
+    """the model gets the graph as networkx hands it to the code: the node table and the sequence of crn.edges(data=True)"""
+    U = _ugraph(ug)
+
+    def node(n, d):
+        return cpair(_cnid(n), "(BNode %s %s %s %s %s)" % (
+            copt(cZ(_bvenc(d["bipartite"])) if "bipartite" in d else None), copt(cs(d["label"]) if "label" in d else None),
+            copt(cs(d["kind"]) if "kind" in d else None), copt(cs(_molenc(d["mol"])) if "mol" in d else None),
+            copt(cs(d["edge_id"]) if "edge_id" in d else None)))
+
+    def edge(u, v, d):
+        return cpair(_cnid(u), _cnid(v), "(BArc %s %s)" % (copt(cZ(d["stoich"]) if "stoich" in d else None),
+                                                          copt(cs(d["role"]) if "role" in d else None)))
+    return "run_undirected %s %s (IFlags %s %s %s %s)" % (
+        clist([node(n, d) for n, d in U.nodes(data=True)]), clist([edge(u, v, d) for u, v, d in U.edges(data=True)]),
+        cs(io["isp"]), cs(io["irp"]), cs(io["dr"]), cbool(mol_attr))
+
 
 def _run_views(H, views, hist):
     out = []
@@ -574,6 +623,8 @@ def _run_views(H, views, hist):
 def impl(case):
     net = case.get("net", {})
     hist = bool(case.get("hist"))
+    if "ugraphs" in case:
+        return [_run_uview(ug, mol_attr, io) for ug, mol_attr, io in case["ugraphs"]]
     H = build(net)
     before = _net_obs(H)
     if "batches" in case:
@@ -703,6 +754,8 @@ def _edit(ed):
 
 
 def coq_case(case):
+    if "ugraphs" in case:
+        return "L %s" % clist([_uview_term(ug, mol_attr, io) for ug, mol_attr, io in case["ugraphs"]])
     if "batches" in case:
         bs = []
         for form, items, dr, ps, pf in case["batches"]:
@@ -853,6 +906,8 @@ def oracle(case):
     hist = bool(case.get("hist"))
     shared = hist or "edits" in case
     H = build(net) if shared else None            # history cases: ONE object through all steps, as in impl()
+    if "ugraphs" in case:
+        return []               # _as_bipartite on undirected input is a facade of the analysis modules, no round trip of the property: correspondence only
     if "batches" in case:
         return []               # parsing arbitrary text INTO a network is no round trip: correspondence only (C16_built_networks_consistent)
     if "sviews" in case:
@@ -1335,6 +1390,49 @@ def _gen_cases(tier, rng):
                 items.append([line, rng.choice([None, None, None, "r", "R1", ""])])
             batches.append([rng.choice(["tuples", "tuples", "mapping", "rules"]), items, rng.choice(["r", "dflt"]), rng.random() < 0.7, rng.random() < 0.4])
         cases.append(dict(kind="parse-into", net=net, views=[], batches=batches))
+    # ---- (round 5) conversion._as_bipartite on UNDIRECTED bipartite graphs (Graph / MultiGraph): incidences in either endpoint order and any
+    #      sequence, catalysts (two incidences between one pair of nodes: parallel edges of a multigraph, merged in a simple graph),
+    #      duplicated incidences (coefficients add up), `kind` absent (marker fall-back), `role` / `stoich` absent
+    for t in range(20 if quick else 150):
+        ugs = []
+        for _ in range(6):
+            net = _rand_net(rng, nsp=rng.randint(1, 5), nrx=rng.randint(1, 5))
+            int_ = rng.random() < 0.3
+            nokind = rng.random() < 0.25
+            nodes, edges, ids = [], [], {}
+            sp = sorted({q[0] for _, _, l, r in net["rxns"] for q in l + r if q[1] > 0})
+            for i, x in enumerate(sp):
+                ids[("s", x)] = (i + 1) if int_ else "S:" + x
+                a = dict(bipartite=0, label=x, kind="species")
+                if nokind:
+                    a.pop("kind")
+                nodes.append([ids[("s", x)], a])
+            for j, (e, rule, l, r) in enumerate(net["rxns"]):
+                eid = e if e is not None else "e%d" % j
+                rid = (len(sp) + j + 1) if int_ else "R:" + eid
+                a = dict(bipartite=1, label=rule or "r", kind="reaction", edge_id=eid)
+                if nokind:
+                    a.pop("kind")
+                nodes.append([rid, a])
+                for side, role in ((l, "reactant"), (r, "product")):
+                    for x, c in side:
+                        if c <= 0:
+                            continue
+                        d = dict(stoich=c, role=role)
+                        if rng.random() < 0.1:
+                            d.pop("stoich")
+                        if rng.random() < 0.08:
+                            d.pop("role")
+                        u, v = ids[("s", x)], rid
+                        if rng.random() < 0.5:
+                            u, v = v, u
+                        edges.append([u, v, d])
+                        if rng.random() < 0.1:
+                            edges.append([v, u, dict(d)])          # a duplicated incidence
+            rng.shuffle(nodes)
+            rng.shuffle(edges)
+            ugs.append([dict(multi=rng.random() < 0.6, nodes=nodes, edges=edges), rng.random() < 0.8, dict(isp="S:", irp="R:", dr="r")])
+        cases.append(dict(kind="undirected", views=[], ugraphs=ugs))
     # ---- wrappers / facades of the converters: _as_bipartite (own defaults: integer ids), _as_species_graph, _CRNGraphBackend
     for t in range(10 if quick else 60):
         net = _rand_net(rng, nsp=rng.randint(1, 6), nrx=rng.randint(0, 6))
@@ -1441,7 +1539,8 @@ LEVEL_TEXT = ("Machine-checked proof (Coq, axiom-free) over an executable model 
               "mol, marker - with each premise shown necessary) and C16_species_graph_roundtrip_edited (ids and coefficients come back from via + "
               "per-reaction maps alone) / C16_species_graph_roundtrip_legacy (without the maps: from the legacy per-arc values when the reactions of "
               "every shared arc agree); C16_built_networks_consistent (every network an importer or the parser builds, from any graph / any text, satisfies the "
-              "store invariant of C15, also when the call raises midway). The model is tied to the Python code by comparing, on every run, the "
+              "store invariant of C15, also when the call raises midway); C16_parse_default_rule (after a repo fix); C16_undirected_roundtrip (_as_bipartite orients any "
+              "undirected presentation of an exported graph back to the exported DiGraph). The model is tied to the Python code by comparing, on every run, the "
               "intermediate view (all nodes, arcs and attributes, or the printed lines) and the reconstructed network for thousands of "
               "generated networks and flag combinations (exhaustive small scope + random + adversarial + fuzzed parser input), including "
               "HISTORIES: repeated round trips on one shared network object while the caller edits, in place, every result it was handed, "
